@@ -21,7 +21,9 @@ EXPLANATION = (
     "are inert inside quotes, a literal written by the writer is skipped by length exactly, parens push / pop); collapseStrings "
     "routes literal tuples around the tokenizer; splitQuoted's loop is evaluated on every writer output for payloads <=3 units: "
     "escaped quotes are undone, atoms / NIL / quoted 'NIL' are distinguished, and the doubled escape unit must be collapsed - "
-    "it is not (no branch on the escape unit): known finding F42. Not decided: equality of arbitrary nested structures."
+    "it is not (no branch on the escape unit): known finding F42. The whole reader (parseNestedParens -> collapseStrings -> splitQuoted) is "
+    "also evaluated on the writer's output for a set of nested structures incl. literals whose payload starts with CR / LF. "
+    "Not decided: equality of arbitrary nested structures."
 )
 ASSUMPTIONS = [
     "_matchingString / iterbytes / networkString behave as documented in twisted.python.compat (modelled)",
